@@ -267,6 +267,69 @@ def r143(rep: Report, ctx: Ctx) -> None:
            "all fields are str or list[str]")
     rep.obligations[-1].func = "PVEvent"
     rep.obligations[-1].file = idx.cls("PVEvent").module.relpath
+    # the validation model of the loader hands every value on unchanged
+    TRANSFORMING = {"str_strip_whitespace", "str_to_lower", "str_to_upper",
+                    "str_max_length", "coerce_numbers_to_str",
+                    "anystr_strip_whitespace", "anystr_lower", "anystr_upper",
+                    "max_anystr_length", "min_anystr_length",
+                    "str_min_length", "use_enum_values"}
+    pm = idx.cls("PVEventModel")
+    list_fields = {n for n, st in pm.fields()
+                   if unparse(st.annotation).lower().startswith("list")}
+    probs: list[tuple[ast.AST, str]] = []
+    for st in pm.node.body:
+        cfg_call = None
+        if isinstance(st, (ast.Assign, ast.AnnAssign)):
+            tgt = st.targets[0] if isinstance(st, ast.Assign) else st.target
+            if isinstance(tgt, ast.Name) and tgt.id == "model_config" \
+                    and st.value is not None:
+                cfg_call = st.value
+        if cfg_call is not None:
+            keys = [k.arg for k in cfg_call.keywords] if isinstance(
+                cfg_call, ast.Call) else [
+                k.value for k in getattr(cfg_call, "keys", [])
+                if isinstance(k, ast.Constant)]
+            for k in keys:
+                if k in TRANSFORMING:
+                    probs.append((st, f"model_config {k}: loaded strings "
+                                      "are rewritten"))
+        if isinstance(st, ast.ClassDef) and st.name == "Config":
+            for x in st.body:
+                if isinstance(x, ast.Assign) and isinstance(
+                        x.targets[0], ast.Name) and x.targets[0].id in \
+                        TRANSFORMING:
+                    probs.append((x, f"Config.{x.targets[0].id}: loaded "
+                                     "strings are rewritten"))
+        if isinstance(st, ast.FunctionDef) and any(
+                (dotted(d.func) if isinstance(d, ast.Call) else dotted(d))
+                in ("field_validator", "validator") for d in
+                st.decorator_list):
+            deco = [d for d in st.decorator_list if isinstance(d, ast.Call)]
+            flds = {a.value for d in deco for a in d.args
+                    if isinstance(a, ast.Constant)}
+            vparam = st.args.args[1].arg if len(st.args.args) > 1 else None
+            for r in ast.walk(st):
+                if isinstance(r, ast.Return) and r.value is not None:
+                    v = r.value
+                    same = isinstance(v, ast.Name) and v.id == vparam
+                    wrap = isinstance(v, ast.List) and len(v.elts) == 1 \
+                        and isinstance(v.elts[0], ast.Name) \
+                        and v.elts[0].id == vparam and flds <= list_fields
+                    if not (same or wrap):
+                        probs.append((r, f"validator {st.name} returns "
+                                         f"'{unparse(v)[:40]}' instead of "
+                                         "the value it was given"))
+    rep.ob("R14.3", "the loader's validation model passes values through "
+           "unchanged", not probs, detail="; ".join(p[1] for p in probs) + (
+               " -- the in-memory route keeps the values verbatim, the file "
+               "route does not: event types / ids that differ only by what "
+               "is rewritten are merged" if probs else
+               "no transforming model_config option, validators return "
+               "their argument (or [value] for the list field)"))
+    rep.obligations[-1].func = pm.qualname
+    rep.obligations[-1].file = pm.module.relpath
+    rep.obligations[-1].line = (probs[0][0].lineno if probs
+                                else pm.node.lineno)
     sv = ctx.func("save_pv_event_stream_to_file")
     dumps = [c for c in ast.walk(sv.node) if isinstance(c, ast.Call)
              and call_name(c) == "dump"]
